@@ -16,6 +16,7 @@ import (
 	"sync"
 	"time"
 
+	"github.com/thought-machine/please/src/core"
 	"verif/harness/lib"
 )
 
@@ -476,6 +477,19 @@ func (g *gen) edit(run *lib.Run) {
 
 func (g *gen) history(run *lib.Run, steps int) []string {
 	g.ops = []string{"reset"}
+	if *mode == "c02" {
+		g.ops = append(g.ops, "cacheon")
+		if g.r.Chance(50) { // CollapseHash cross-check on a random 80-byte key (sometimes with rule = postRule)
+			key := make([]byte, 80)
+			for i := range key {
+				key[i] = byte(g.r.Intn(256))
+			}
+			if g.r.Chance(50) {
+				copy(key[20:40], key[0:20])
+			}
+			g.ops = append(g.ops, "collapse "+hex.EncodeToString(key))
+		}
+	}
 	g.s = newState()
 	nt := 2 + g.r.Intn(4)
 	for i := 0; i < nt; i++ {
@@ -587,7 +601,13 @@ func runHistory(idx int, ops []string, scratch, plz string) ([]result, []oracleF
 			res = append(res, result{op, "ok", false})
 		case "wipe":
 			os.RemoveAll(filepath.Join(rr.root, "plz-out"))
+			lastInputs = map[string]string{}
 			res = append(res, result{op, "ok", false})
+		case "cacheon":
+			res = append(res, result{op, "ok", false})
+		case "collapse":
+			key, _ := hex.DecodeString(f[1])
+			res = append(res, result{op, hex.EncodeToString(core.CollapseHash(key)), true})
 		case "build":
 			req := strings.Split(f[1], ",")
 			order := s.closure(req)
